@@ -262,7 +262,7 @@ class C02(Suite):
     case_ty = "case"
     obs_ty = "obs"
     kf = "kf"
-    kf_ids = {1: "F17", 2: "F18"}
+    kf_ids = {1: "F17"}
     corr = ("ConjunctiveGraph._spoc/_graph/add/addN/remove/triples/quads/__contains__/__len__/contexts/"
             "get_context/remove_context, Dataset.graph/add_graph/remove_graph/graphs/quads, over Memory")
     quick_n = 900
@@ -283,7 +283,6 @@ class C02(Suite):
             used = list(dict.fromkeys(used[:2] + [1, 3]))
         unused = [c for c in [5, 4, 2, 1, 3] if c not in used]
         names = sorted(set([0] + used + unused[:1]))
-        allow_none = rng.random() < 0.06
         nfresh = 0
 
         def pick_name():
@@ -304,8 +303,8 @@ class C02(Suite):
             r = rng.random()
             if r < p_triple:
                 return "t"
-            if write and allow_none and r < p_triple + 0.15:
-                return ["q", None]
+            if write and r < p_triple + 0.07:
+                return ["q", None]  # a quad that names no graph: the default graph (F18, repaired)
             if not write and r < p_triple + 0.05:
                 return ["q", None]
             return ["q", garg(write)]
